@@ -82,9 +82,10 @@ Theorem downscale_multiplier_eq : forall a,
   DownScaleInt32ToInt16Multiplier a = (if a >=? 2147450879 then 32767 else (a + 32768) / 65536).
 Proof. exact downscale_multiplier_eq_lemma. Qed.
 
-(* quantised multiply: Vela shift s is TFLite shift 31 - s; precondition: the left-shifted operand is an int32 *)
+(* quantised multiply: Vela shift s is TFLite shift 31 - s; every int32 multiplier (quantise_scale yields
+   [0, 2^31)); precondition: the left-shifted operand is an int32 *)
 Theorem mbqm_eq_reference : forall x m s,
-  in_int 32 x = true -> 0 <= m < 2 ^ 31 -> 0 <= s <= 62 ->
+  in_int 32 x = true -> in_int 32 m = true -> 0 <= s <= 62 ->
   in_int 32 (x * 2 ^ (Z.max 0 (31 - s))) = true ->
   GenFpMath.multiply_by_quantized_multiplier x m s = Some (MultiplyByQuantizedMultiplier x m (31 - s)) /\
   in_int 32 (MultiplyByQuantizedMultiplier x m (31 - s)) = true.
